@@ -42,6 +42,7 @@ func main() {
 	vdir := flag.String("verif", "", "verif directory (default: parent of the binary's dir, or /verif)")
 	noEvidence := flag.Bool("no-evidence", false, "do not write evidence/replay files (self-test sub-runs)")
 	verbose := flag.Bool("v", false, "print every obligation")
+	noSelfTest := flag.Bool("no-selftest", false, "thorough tier without the mutant self-test")
 	flag.Parse()
 
 	if *vdir != "" {
@@ -198,7 +199,20 @@ func main() {
 				all = append(all, o)
 			}
 		}
-		code := report(id, pr, all, known, *tier, seed, *evdir, fns, pathStates, pathEdges, cfgNames, progs[0].p, time.Since(t0), *verbose, *noEvidence)
+		var st *selfTestResult
+		if *tier == "thorough" && !*noSelfTest {
+			r := runSelfTest(id, *repo, verifDir)
+			st = &r
+			fmt.Printf("%s self-test: %d mutated copies analysed, %d detected, %d missed, %d skipped (patch no longer applies), %d skipped (does not type-check)\n", id, r.Applied, r.Detected, len(r.Missed), r.Skipped, r.Broken)
+			for _, m := range r.Missed {
+				fmt.Printf("  self-test MISSED %s\n", m)
+			}
+		}
+		code := report(id, pr, all, known, *tier, seed, *evdir, fns, pathStates, pathEdges, cfgNames, progs[0].p, time.Since(t0), *verbose, *noEvidence, st)
+		if st != nil && len(st.Missed) > 0 && code == 0 {
+			fmt.Fprintf(os.Stderr, "raftlint: self-test: %d registered mutant(s) were not reported by the %s rule set – the checker is weaker than claimed (tool failure, not a property verdict)\n", len(st.Missed), id)
+			code = 2
+		}
 		if code > exit {
 			exit = code
 		}
@@ -241,7 +255,7 @@ func loadKnown(path string) []knownEntry {
 }
 
 func report(id string, pr *rules.Property, obs []*rules.Obligation, known []knownEntry, tier string, seed int, evdir string,
-	fns map[string]bool, pathStates, pathEdges int, cfgs []string, p *engine.Program, wall time.Duration, verbose, noEvidence bool) int {
+	fns map[string]bool, pathStates, pathEdges int, cfgs []string, p *engine.Program, wall time.Duration, verbose, noEvidence bool, st *selfTestResult) int {
 
 	sort.SliceStable(obs, func(i, j int) bool {
 		if obs[i].Rule != obs[j].Rule {
@@ -349,6 +363,9 @@ func report(id string, pr *rules.Property, obs []*rules.Obligation, known []know
 		"assumptions": append(append([]string{}, rules.CommonAssumptions()...), pr.Assumptions...),
 		"wall_s":      wall.Seconds(),
 		"violations":  len(viol),
+	}
+	if st != nil {
+		ev["coverage"].(map[string]any)["selftest"] = st
 	}
 	if !noEvidence {
 		_ = os.MkdirAll(evdir, 0o755)
